@@ -249,10 +249,93 @@ CHECK_TYPE(unsigned int, uint)
 CHECK_TYPE(long, slong)
 CHECK_TYPE(unsigned long, ulong)
 
+/*
+ * Operand whose static type differs from the target's: the documented
+ * semantics convert the operand to the type of *addr as C does (sign-extend a
+ * signed operand, zero-extend an unsigned one, truncate a wider one).
+ */
+#define CHECK_MIXED(T, name, V, vname)								\
+static void UAT(mix_##name##_##vname)(void)							\
+{												\
+	struct { T guard0; T cell; T guard1; } box;						\
+	static const long pats[] = { 0, 1, -1, 2, 127, 128, 255, 256, 32767, 32768, 65535, 65536,	\
+		2147483647L, 2147483648L, 4294967295L, 4294967296L, -128, -129, -32768, -32769,		\
+		0x7fffffffffffffffL, (long) 0x8000000000000000UL, 0x5555555555555555L, 1024, 4096 };	\
+	int n = sizeof(pats) / sizeof(pats[0]), i, what = 0;					\
+	T g0 = (T) 0x5a5a5a5a5a5a5a5aUL, g1 = (T) 0xa5a5a5a5a5a5a5a5UL;			\
+	T model, r = 0, rr;									\
+	V a = 0, b;										\
+	box.guard0 = g0; box.guard1 = g1;							\
+	box.cell = model = (T) pats[rnd(n)];							\
+	for (i = 0; i < 10; i++) {								\
+		a = (V) pats[rnd(n)]; b = (V) pats[rnd(n)];					\
+		switch (what = rnd(10)) {							\
+		case 0: uatomic_set(&box.cell, a); model = (T) a; break;			\
+		case 1: r = uatomic_xchg(&box.cell, a); rr = model; model = (T) a;		\
+			if (r != rr) goto bad; break;						\
+		case 2: r = uatomic_cmpxchg(&box.cell, (T) a, b); rr = model;			\
+			if (model == (T) a) model = (T) b;					\
+			if (r != rr) goto bad; break;						\
+		case 3: r = uatomic_cmpxchg(&box.cell, model, b); rr = model; model = (T) b;	\
+			if (r != rr) goto bad; break;						\
+		case 4: r = uatomic_add_return(&box.cell, a); model = (T) (model + (T) a);	\
+			if (r != model) goto bad; break;					\
+		case 5: r = uatomic_sub_return(&box.cell, a); model = (T) (model - (T) a);	\
+			if (r != model) goto bad; break;					\
+		case 6: uatomic_add(&box.cell, a); model = (T) (model + (T) a); break;		\
+		case 7: uatomic_sub(&box.cell, a); model = (T) (model - (T) a); break;		\
+		case 8: uatomic_and(&box.cell, a); model = (T) (model & (T) a); break;		\
+		default: uatomic_or(&box.cell, a); model = (T) (model | (T) a); break;		\
+		}										\
+		if (box.cell != model || box.guard0 != g0 || box.guard1 != g1)			\
+			goto bad;								\
+	}											\
+	return;											\
+bad:												\
+	usim_fail("uatomic-value", "uatomic (%s, target %s, operand of type %s = %lld, op %d) disagrees with the sequential reference: cell=%lld model=%lld returned=%lld guards %s",	\
+		IMPL, #name, #vname, (long long) a, what, (long long) box.cell, (long long) model, (long long) r,	\
+		(box.guard0 != g0 || box.guard1 != g1) ? "CLOBBERED" : "intact");		\
+}
+
+#define MIX_ROW(T, name)				\
+	CHECK_MIXED(T, name, signed char, schar)	\
+	CHECK_MIXED(T, name, unsigned char, uchar)	\
+	CHECK_MIXED(T, name, short, sshort)		\
+	CHECK_MIXED(T, name, unsigned short, ushort)	\
+	CHECK_MIXED(T, name, int, sint)			\
+	CHECK_MIXED(T, name, unsigned int, uint)	\
+	CHECK_MIXED(T, name, long, slong)		\
+	CHECK_MIXED(T, name, unsigned long, ulong)
+
+MIX_ROW(signed char, schar)
+MIX_ROW(unsigned char, uchar)
+MIX_ROW(short, sshort)
+MIX_ROW(unsigned short, ushort)
+MIX_ROW(int, sint)
+MIX_ROW(unsigned int, uint)
+MIX_ROW(long, slong)
+MIX_ROW(unsigned long, ulong)
+
+#define MIX_CALL_ROW(name)								\
+	UAT(mix_##name##_schar)(); UAT(mix_##name##_uchar)(); UAT(mix_##name##_sshort)();	\
+	UAT(mix_##name##_ushort)(); UAT(mix_##name##_sint)(); UAT(mix_##name##_uint)();	\
+	UAT(mix_##name##_slong)(); UAT(mix_##name##_ulong)();
+
 void UAT(seq_all)(void)
 {
 	UAT(seq_schar)(); UAT(seq_uchar)(); UAT(seq_sshort)(); UAT(seq_ushort)();
 	UAT(seq_sint)(); UAT(seq_uint)(); UAT(seq_slong)(); UAT(seq_ulong)();
+	/* one target row per run keeps the run short; every row is visited across runs */
+	switch (rnd(8)) {
+	case 0: MIX_CALL_ROW(schar) break;
+	case 1: MIX_CALL_ROW(uchar) break;
+	case 2: MIX_CALL_ROW(sshort) break;
+	case 3: MIX_CALL_ROW(ushort) break;
+	case 4: MIX_CALL_ROW(sint) break;
+	case 5: MIX_CALL_ROW(uint) break;
+	case 6: MIX_CALL_ROW(slong) break;
+	default: MIX_CALL_ROW(ulong) break;
+	}
 }
 
 void UAT(conserve)(int me, struct op *op) { UAT(conserve_op)(me, op); }
